@@ -61,8 +61,20 @@ class Case:
             return True
         if self.nest0 != 0 or any(r.form == "w" or r.guard != "n" for r in self.roots):
             return False
-        names = [n.name for n in self.nodes()]
-        return len(set(names)) == len(names)
+        # names are unique — except that a top-level testcase may be scheduled more than once (the same subtree again)
+        seen = {}
+        for r in self.roots:
+            toks = " ".join(r.tokens())
+            names = [n.name for n in r.walk()]
+            if len(set(names)) != len(names):
+                return False
+            if toks in seen.values():
+                continue
+            if any(n in seen for n in names):
+                return False
+            for n in names:
+                seen[n] = toks
+        return True
 
 
 def _parse_nodes(toks, pos, count):
@@ -341,7 +353,12 @@ def gen_forest(rng, mode, max_nodes=12, max_depth=4):
 
 def gen_case(rng, mode):
     nest0 = rng.choice([0, 0, 1, 2, 5, 8, 30]) if mode == "ip" else 0
-    return Case(mode, nest0, gen_forest(rng, mode))
+    roots = gen_forest(rng, mode)
+    if mode != "ip" and roots and rng.random() < 0.12:
+        # the command line names a testcase twice (`tbot provision check provision`): it runs twice
+        r = rng.choice(roots)
+        roots.insert(rng.randint(roots.index(r) + 1, len(roots)), r.copy())
+    return Case(mode, nest0, roots)
 
 
 def shrink_candidates(line):
